@@ -176,8 +176,8 @@ func c12Tables(r *run.Run) {
 		if len(devs) > 0 {
 			c.Nontrivial()
 		}
-		if x.IsRegular && (x.IsBold || x.IsItalic || x.IsOblique) {
-			c.Skip("fsSelection: REGULAR excludes BOLD/ITALIC/OBLIQUE (OpenType spec), not representable")
+		if x.IsRegular && (x.IsBold || x.IsItalic) {
+			c.Skip("fsSelection: REGULAR excludes BOLD and ITALIC (bits 0 and 5, OpenType spec), not representable; OBLIQUE is independent")
 		}
 		b := x.Encode()
 		y, err := os2.Read(bytes.NewReader(b))
